@@ -546,7 +546,7 @@ fn compare(s: &str, r: &sas_lexer::LexResult) -> Vec<String> {
 
 pub fn run(cfg: &Config) -> PropRun {
     let ex = Explorer::new(cfg.threads, cfg.cap_s, if cfg.tier == Tier::Quick { 28 } else { 33 });
-    let mut sp = spaces::sigma_spaces(&["S5full"], cfg.tier);
+    let mut sp = spaces::sigma_spaces(&["S5full", "dl"], cfg.tier);
     // every pair and triple of symbol characters (operators are where longest-match matters)
     let syms: Vec<&str> = vec![
         "*", "(", ")", "{", "}", "[", "]", "!", "¦", "|", "¬", "^", "~", "∘", "+", "-", "<", ">", ".", ",", ":", "=",
@@ -626,7 +626,7 @@ pub fn run(cfg: &Config) -> PropRun {
     report.distinct_nontrivial = ex.distinct_nontrivial.load(std::sync::atomic::Ordering::Relaxed);
     PropRun {
         report,
-        rule: "every word of <= N atoms of the open-code alphabet S5 (and of the symbol alphabet) that passes the macro-free predicate; macro-free statements of the corpus; non-trivial = at least 3 tokens".into(),
+        rule: "every word of <= N atoms of the open-code alphabet S5 (and of the symbol alphabet and the in-stream data keyword family) that passes the macro-free predicate; macro-free statements of the corpus; non-trivial = at least 3 tokens".into(),
         oracle: "(type, channel, start byte) sequence and (error kind, byte offset) list equal those of the reference lexer R11".into(),
     }
 }
